@@ -1,0 +1,92 @@
+//go:build verif
+// +build verif
+
+package fuse
+
+import (
+	"encoding/binary"
+
+	"github.com/jacobsa/fuse/fuseops"
+	"github.com/jacobsa/fuse/fuseutil"
+)
+
+// Accessors for runtime verification only (build tag verif): the file system operation interface of a mount,
+// reachable without a kernel mount, and a read-only snapshot of the mutable mount's internal structures.
+
+// VerifFS returns the file system operations of a read-only mount.
+func (dfs *ReadOnlyFS) VerifFS() fuseutil.FileSystem { return dfs.fsInternal }
+
+// VerifFS returns the file system operations of a mutable mount.
+func (dfs *MutableFS) VerifFS() fuseutil.FileSystem { return dfs.fsInternal }
+
+// VerifName is one entry of the name space of a mutable mount.
+type VerifName struct {
+	Parent, Inode uint64
+	Name          string
+}
+
+// VerifDirent is one directory entry as kept for ReadDir.
+type VerifDirent struct {
+	Inode uint64
+	Name  string
+	IsDir bool
+}
+
+// VerifNode is one entry of the inode table.
+type VerifNode struct {
+	RefCount int
+	Nlink    uint32
+	IsDir    bool
+	Size     uint64
+}
+
+// VerifState is a snapshot of the structures of a mutable mount.
+type VerifState struct {
+	Names   []VerifName
+	ReadDir map[uint64][]VerifDirent
+	Nodes   map[uint64]VerifNode
+	Free    []uint64
+	Highest uint64
+}
+
+// VerifSnapshot copies the name space, directory map, inode table and inode allocator of a mutable mount,
+// under the locks the file system itself uses.
+func (dfs *MutableFS) VerifSnapshot() VerifState {
+	fs := dfs.fsInternal
+	fs.lock.Lock()
+	defer fs.lock.Unlock()
+
+	st := VerifState{ReadDir: map[uint64][]VerifDirent{}, Nodes: map[uint64]VerifNode{}}
+	it := fs.lookupTree.Root().Iterator()
+	for k, v, ok := it.Next(); ok; k, v, ok = it.Next() {
+		le := v.(lookupEntry)
+		st.Names = append(st.Names, VerifName{
+			Parent: binary.BigEndian.Uint64(k[:8]),
+			Inode:  uint64(le.iNode),
+			Name:   string(k[8:]),
+		})
+	}
+	for p, children := range fs.readDirMap {
+		st.ReadDir[uint64(p)] = []VerifDirent{}
+		for _, d := range children {
+			st.ReadDir[uint64(p)] = append(st.ReadDir[uint64(p)], VerifDirent{Inode: uint64(d.Inode), Name: d.Name, IsDir: d.Type == fuseutil.DT_Directory})
+		}
+	}
+	ni := fs.iNodeStore.Root().Iterator()
+	for k, v, ok := ni.Next(); ok; k, v, ok = ni.Next() {
+		n := v.(*nodeEntry)
+		n.lock.Lock()
+		st.Nodes[binary.BigEndian.Uint64(k[:8])] = VerifNode{RefCount: n.refCount, Nlink: n.attr.Nlink, IsDir: n.attr.Mode.IsDir(), Size: n.attr.Size}
+		n.lock.Unlock()
+	}
+	fs.iNodeGenerator.lock.Lock()
+	for _, i := range fs.iNodeGenerator.freeInodes {
+		st.Free = append(st.Free, uint64(i))
+	}
+	st.Highest = uint64(fs.iNodeGenerator.highestInode)
+	fs.iNodeGenerator.lock.Unlock()
+
+	return st
+}
+
+var _ = fuseops.RootInodeID
